@@ -156,6 +156,10 @@ def output_dict(cfg, prefix):
     h5 = {k: int(v) for k, v in o["h5"].items()}
     if cfg.get("legacy_keys"):
         # the backward-compatible spelling: 'thermo' = screen cadence, 'dump' = XYZ and HDF5 data cadence
+        le = cfg.get("legacy_explicit")
+        if le:
+            # ... next to explicit values for both streams (which win, whatever 'dump' says)
+            return {"molid": list(o["molid"]), "prefix": prefix, "thermo": int(o.get("print", 0)), "dump": int(le["dump"]), "xyz": int(o.get("xyz", 0)), "checkpoint every": int(o.get("ckpt", 0)), "h5": h5}
         assert int(o.get("xyz", 0)) == int(h5.get("data", 0))
         h5.pop("data", None)
         return {"molid": list(o["molid"]), "prefix": prefix, "thermo": int(o.get("print", 0)), "dump": int(o.get("xyz", 0)), "checkpoint every": int(o.get("ckpt", 0)), "h5": h5}
@@ -169,6 +173,9 @@ def output_dict(cfg, prefix):
     }
     if cfg.get("sparse_h5_keys"):
         out["h5"] = {k: v for k, v in h5.items() if v}
+    if cfg.get("numpy_cadences"):
+        out["h5"] = {k: (np.int64(v) if k in ("data", "coordinates", "velocities", "forces", "nonadiabatic", "transition_density_matrices") else v) for k, v in h5.items()}
+        out["xyz"], out["print every"], out["checkpoint every"] = np.int64(out["xyz"]), np.int64(out["print every"]), np.int64(out["checkpoint every"])
     if cfg.get("omit_h5") and not any(h5.values()):
         out.pop("h5")
     return out
